@@ -235,6 +235,7 @@ func (*hrepl) Run(rc *core.RunCtx) *core.RunResult {
 	// the session under interrupts
 	o := replOS(t, sc, cli, cliProg)
 	type sent struct {
+		pre    int // OS event count just before the interrupt was sent
 		seq    int
 		ok     bool
 		outLen int
@@ -260,11 +261,12 @@ func (*hrepl) Run(rc *core.RunCtx) *core.RunResult {
 					// not a busy wait: a blocked task is retried only after others made progress
 					simrt.Block(siteReplInt)
 				}
+				pre := o.Seq()
 				ok := o.Interrupt()
 				if ok {
 					replInc(&nSentOK)
 				}
-				replNote(&ints, sent{seq: o.Seq(), ok: ok, outLen: replOutLen(o)})
+				replNote(&ints, sent{pre: pre, seq: o.Seq(), ok: ok, outLen: replOutLen(o)})
 			}
 		})
 	}})
@@ -314,20 +316,34 @@ func (*hrepl) Run(rc *core.RunCtx) *core.RunResult {
 			res.Trace = run.Trace
 		}
 	}
+	// ordinal (1-based, among the delivered ones) of the first interrupt that was sent
+	// after OS event at: only such an interrupt is certain to be processed - received
+	// and its cancel called - while whatever started writing before at is still on top
+	firstSentAfter := func(at int) int {
+		k := 0
+		for _, s := range ints {
+			if !s.ok {
+				continue
+			}
+			k++
+			if s.pre > at {
+				return k
+			}
+		}
+		return 1 << 30
+	}
 	if cli {
 		// an interrupt cancels the one evaluation there is: once it has been fully processed
 		// after the first write, at most the write already past the context check may follow
-		firstTag, late := -1, 0
-		for wi := range o.Out.WriteAt {
-			if wi >= len(o.Out.WriteTag) {
-				break
-			}
-			if firstTag < 0 {
-				firstTag = o.Out.WriteTag[wi]
-				continue
-			}
-			if o.Out.WriteTag[wi] > firstTag {
-				late++
+		// (an interrupt that arrives while a nested eval() runs cancels that one only:
+		// the program may absorb as many interrupts as it has nested evaluations)
+		late := 0
+		if len(o.Out.WriteAt) > 0 {
+			k0 := firstSentAfter(o.Out.WriteAt[0]) + strings.Count(cliProg, "eval(")
+			for wi := 1; wi < len(o.Out.WriteAt) && wi < len(o.Out.WriteTag); wi++ {
+				if o.Out.WriteTag[wi] >= k0 {
+					late++
+				}
 			}
 		}
 		res.Probes["cli_sessions"]++
@@ -369,14 +385,14 @@ func (*hrepl) Run(rc *core.RunCtx) *core.RunResult {
 		if !isBigLine(s.line.Text) {
 			continue
 		}
-		first := -1
+		first := -1 // tag below which a write is not late
 		late := 0
 		for wi, at := range o.Out.WriteAt {
 			if at <= s.retSeq || at >= s.endSeq || wi >= len(o.Out.WriteTag) {
 				continue
 			}
 			if first < 0 {
-				first = o.Out.WriteTag[wi]
+				first = firstSentAfter(at) - 1
 				continue
 			}
 			if o.Out.WriteTag[wi] > first {
@@ -390,7 +406,18 @@ func (*hrepl) Run(rc *core.RunCtx) *core.RunResult {
 		// allowed after the cancellation: the write that had already passed the context check
 		// and what the enclosing, not cancelled evaluation prints around the value
 		if late >= 5 {
-			viol("output-after-cancellation", "repl", "line %q has one output value; an interrupt was fully processed after its first write, yet %d further writes of that value reached the terminal", strings.TrimSpace(s.line.Text), late)
+			// the late writes themselves (length and first bytes), for the report
+			var lw []string
+			off := 0
+			for wi, at := range o.Out.WriteAt {
+				if wi < len(o.Out.WriteTag) && wi < len(o.Out.WriteLen) {
+					if at > s.retSeq && at < s.endSeq && o.Out.WriteTag[wi] > first && len(lw) < 24 && off+o.Out.WriteLen[wi] <= len(o.Out.Buf) {
+						lw = append(lw, fmt.Sprintf("%d:%q", o.Out.WriteLen[wi], firstN(string(o.Out.Buf[off:off+o.Out.WriteLen[wi]]), 12)))
+					}
+					off += o.Out.WriteLen[wi]
+				}
+			}
+			viol("output-after-cancellation", "repl", "line %q has one output value; an interrupt was fully processed after its first write, yet %d further writes of that value reached the terminal (%s)", strings.TrimSpace(s.line.Text), late, strings.Join(lw, " "))
 			return res
 		}
 	}
